@@ -172,6 +172,11 @@ def map_cases(ctx):
         s["ln_prior"] = lp
         s["ln_likelihood"] = ll
         case = dict(family="map", ln_prior=lp.tolist(), ln_likelihood=ll.tolist())
+        if k % 3 == 0:
+            # tables built from an MCMC run also carry the optional ln_posterior column (the sampler's own logp, on the transformed
+            # space): MAP_sample is defined by ln_prior + ln_likelihood whatever that column holds
+            s["ln_posterior"] = np.round(rng.normal(0, 5, n) * 16) / 16
+            case["ln_posterior"] = np.asarray(s["ln_posterior"]).tolist()
         try:
             row, idx = MAP_sample(s, return_index=True)
             idx = int(idx)
